@@ -5,8 +5,8 @@ realistic single-edit break applied (VERIF_REPO), expecting exit 1.
   python -m vf.selftest C20 name       # one mutant
   python -m vf.selftest --patch /verif/seeded/x/patch.diff C12   # a seeded patch
 
-The scratch copy lives at a fixed path outside /repo and /verif (so that numba's cache, keyed
-by path+mtime, stays valid for unmodified files) and is removed afterwards unless --keep.
+The scratch copy lives under /tmp/vfmut/<pid>/ (outside /repo and /verif) and is removed
+afterwards unless --keep. Mutants are registered in vf/mut/cNN.py.
 Nothing here is part of a registered check.
 """
 
@@ -19,7 +19,7 @@ import sys
 import time
 
 VERIF = os.path.dirname(os.path.dirname(os.path.abspath(__file__)))
-SCRATCH = "/tmp/vfmut"
+SCRATCH = "/tmp/vfmut/%d" % os.getpid()
 LOG = os.path.join(VERIF, "selftest_log.jsonl")
 
 
@@ -82,9 +82,10 @@ def main():
         print("RESULT %s patch=%s rc=%d wall=%.0fs" % (prop, a.patch, rc, wall))
         results.append({"prop": prop, "mutant": a.patch or "clean", "rc": rc, "wall": round(wall)})
     else:
-        from vf import mutants
+        import importlib
 
-        todo = [m for m in mutants.MUTANTS.get(prop, []) if not a.names or m["name"] in a.names]
+        mm = importlib.import_module("vf.mut.%s" % prop.lower())
+        todo = [m for m in mm.MUTANTS if not a.names or m["name"] in a.names]
         for m in todo:
             repo = fresh_copy()
             for ed in m["edits"]:
@@ -100,8 +101,7 @@ def main():
             r["when"] = time.strftime("%Y-%m-%dT%H:%M:%S")
             fh.write(json.dumps(r) + "\n")
     if not a.keep:
-        shutil.rmtree(os.path.join(SCRATCH, "repo"), ignore_errors=True)
-        shutil.rmtree(os.path.join(SCRATCH, "evidence"), ignore_errors=True)
+        shutil.rmtree(SCRATCH, ignore_errors=True)
     missed = [r for r in results if r["rc"] != 1 and r["mutant"] != "clean"]
     print("caught %d / %d" % (len(results) - len(missed), len(results)))
     return 1 if missed else 0
